@@ -1,4 +1,6 @@
 //! Shared case descriptions, builders, strategies and the model-based judge used by the `core`
 //! binary (C01-C14, C20) and by the Bevy checks.
+pub mod anim;
 pub mod desc;
+pub mod gencheck;
 pub mod oracle;
